@@ -508,6 +508,6 @@ func runC04(c *Ctx) {
 		}
 		c.DistinctCase(fmt.Sprint("busy-watcher-relist", i))
 	}
-	c.Rep.Rule = "whole controller against the fake API server inside a synctest bubble, refresh period 10^6 s (only the watch can deliver): a base history of 8 server mutations with each watch fault {server closes stream, Watch() errors k times, status frame, bookmark frame, unknown frame type, close right after a burst, close then pause / barrier} injected at every position, plus seeded random histories with several faults, with and without a controller-level filter, under three levels of logger-driven schedule perturbation. After the server quiesces and the reconnect delay elapses: cache = server's accepted objects, subscriber mirror = cache with well-formed events, controller alive, one list only; the quiescent outcome is compared with the extracted model (list, then the whole log in order). Plus the overflow history: the controller held in its filter while k in {0,40,99,100,101,130} changes arrive; the changes its subscriber sees afterwards = extracted busy_burst_outcome EventBufsiz k (closed form proved: the first EventBufsiz survive, k - EventBufsiz are lost). Plus changes flowing across relists (period 2s; list latency 0 / 0.3 / 0.9 s; lists answering with the snapshot of their start or of their end; perturbed schedules): cache = server at every barrier, never waiting for the next relist; and relists applied while the watcher goroutine is held in its session-done case (logger hook), 8 rounds each: the next change reported on the watch reaches the cache although no list can complete. Non-trivial = run with at least one reconnect. Fault kinds also: ERROR frames whose payload is not a Status: undecodable (ends the session like a non-object frame), an API object (skipped like an unknown type), no payload."
+	c.Rep.Rule = "whole controller against the fake API server inside a synctest bubble, refresh period 10^6 s (only the watch can deliver): a base history of 8 server mutations with each watch fault {server closes stream, Watch() errors k times, status frame, bookmark frame, unknown frame type, close right after a burst, close then pause / barrier} injected at every position, plus seeded random histories with several faults, with and without a controller-level filter, under three levels of logger-driven schedule perturbation. After the server quiesces and the reconnect delay elapses: cache = server's accepted objects, subscriber mirror = cache with well-formed events, controller alive, one list only; the quiescent outcome is compared with the extracted model (list, then the whole log in order). Plus the overflow history: the controller held in its filter while k in {0,40,99,100,101,130} changes arrive; the changes its subscriber sees afterwards = extracted busy_burst_outcome EventBufsiz k (closed form proved: the first EventBufsiz survive, k - EventBufsiz are lost). Plus changes flowing across relists (period 2s; list latency 0 / 0.3 / 0.9 s; lists answering with the snapshot of their start or of their end; perturbed schedules): cache = server at every barrier, never waiting for the next relist; and relists applied while the watcher goroutine is held in its session-done case (logger hook), 8 rounds each: the next change reported on the watch reaches the cache although no list can complete. Non-trivial = run with at least one reconnect. Fault kinds also: ERROR frames whose payload is not a Status: undecodable (ends the session like a non-object frame), an API object (skipped like an unknown type), no payload. Plus four histories in which DELETED frames carry the object as last stored (old resourceVersion): the newest listed object deleted first, the object of the last event before a reconnect deleted while the stream is down (two positions), and the base history."
 	c.Rep.Stats["runs"] = runs
 }
